@@ -28,6 +28,13 @@ def c01_reuse(shapes, sels): return [AB(na, nb, ranks, SEL=s, _reuse=1) for (na,
 # third red-team round: two unary symbols (B rules of both symbols with the same, hash-consed child tuple), three leaf symbols (A uses a
 # leaf symbol that B lacks although B has as many leaf symbols), and a unary chain of three B-states under one A-state with a loop
 # (the simulation index of the downward algorithms: a state strictly simulated by the next one)
+# fourth round: A over 2 states {a/0,b/0,f/2}: a->p0, b->p0, f(p0,p0)->p1 (p1 final); B over 4 states (qn=0, qf=1, q1=2, q2=3): the four
+# leaf rules into q1/q2, f(qi,qj)->qn and ->qf for i,j in {1,2}, f(qn,q1)->qf, f(q1,qn)->qf (qf final, qn's finality free): the sibling of a
+# child position carries two incomparable macro-states, and the combinations differ in whether the post-image is accepting
+UPACC = {'AMASK': '0x105ul', 'AFINMASK': '0x0u', 'AFINFIX': '0x2u', 'BFINMASK': '0x1u', 'BFINFIX': '0x2u',
+         'BMASK': '0x%xul' % sum(1 << i for i in (2, 3, 6, 7, 18, 19, 22, 23, 34, 35, 38, 39, 26, 32))}
+def c01_upacc(sels): return [AB(2, 4, [0, 0, 2], SEL=s, _time=1500, **UPACC) for s in sels]     # 18 free bits
+
 def c01_r3(tier):
     out = c01_configs([(1, 1, [0, 1, 1]), (2, 1, [0, 1, 1]), (1, 1, [0, 0, 0, 1])])               # 8, 16, 10 bits
     out += [AB(2, 1, [0, 0, 0, 1], SEL=s) for s in ((0, 1) if tier == 'quick' else range(8))]        # 17 bits
@@ -44,8 +51,8 @@ CHECKS = {
   'outside': 'more than 2 states per operand outside the listed sub-universes, rank > 2, more than 4 symbols, simulation relations other than the one the library computes',
   'harnesses': [
     {'name': 'incl', 'src': 'harness/C01/incl.cc', 'tus': TREE_INCL,
-     'configs': {'quick': c01_r3('quick') + c01_configs([(1, 1, [0, 0, 1]), (2, 1, [0, 1]), (1, 2, [0, 1]), (2, 2, [0, 1]), (2, 1, [0, 2]), (1, 2, [0, 2])]) + c01_tri((0, 2, 4, 6)) + c01_joint((2, 4, 6)) + c01_direct([(2, 1, [0, 1]), (1, 2, [0, 2])]) + c01_reuse([(1, 2, [0, 2]), (2, 1, [0, 2])], (0, 2, 4, 6)) + c01_reuse([(2, 2, [0, 1])], range(8)) + c01_recyc((2,)),
-                 'thorough': c01_r3('thorough') + [c for c in c01_configs([(1, 1, [0, 0, 1]), (2, 1, [0, 1]), (1, 2, [0, 1]), (2, 2, [0, 1]), (2, 1, [0, 2]), (1, 2, [0, 2]), (2, 2, [0, 0, 1])], heavy=True) + c01_tri(range(8), _heavy=1, _mem_gb=30, _time=2500) + c01_tri((0, 2, 4, 6), both=False, _heavy=1, _mem_gb=30, _time=2500) + c01_joint(range(8)) + c01_direct([(2, 1, [0, 1]), (1, 2, [0, 2]), (2, 2, [0, 1]), (2, 1, [0, 2])]) + c01_reuse([(1, 2, [0, 2]), (2, 1, [0, 2])], (0, 2, 4, 6)) + c01_reuse([(2, 2, [0, 1]), (1, 1, [0, 0, 1])], range(8)) + [dict(c, _reuse=1) for c in c01_joint((2, 4, 6)) + c01_tri((0, 4, 6))] + c01_recyc((0, 2, 3, 4, 6)) if not _undecidable(c)]},
+     'configs': {'quick': c01_upacc((0,)) + c01_r3('quick') + c01_configs([(1, 1, [0, 0, 1]), (2, 1, [0, 1]), (1, 2, [0, 1]), (2, 2, [0, 1]), (2, 1, [0, 2]), (1, 2, [0, 2])]) + c01_tri((0, 2, 4, 6)) + c01_joint((2, 4, 6)) + c01_direct([(2, 1, [0, 1]), (1, 2, [0, 2])]) + c01_reuse([(1, 2, [0, 2]), (2, 1, [0, 2])], (0, 2, 4, 6)) + c01_reuse([(2, 2, [0, 1])], range(8)) + c01_recyc((2,)),
+                 'thorough': c01_upacc((0, 1, 2, 4, 6)) + c01_r3('thorough') + [c for c in c01_configs([(1, 1, [0, 0, 1]), (2, 1, [0, 1]), (1, 2, [0, 1]), (2, 2, [0, 1]), (2, 1, [0, 2]), (1, 2, [0, 2]), (2, 2, [0, 0, 1])], heavy=True) + c01_tri(range(8), _heavy=1, _mem_gb=30, _time=2500) + c01_tri((0, 2, 4, 6), both=False, _heavy=1, _mem_gb=30, _time=2500) + c01_joint(range(8)) + c01_direct([(2, 1, [0, 1]), (1, 2, [0, 2]), (2, 2, [0, 1]), (2, 1, [0, 2])]) + c01_reuse([(1, 2, [0, 2]), (2, 1, [0, 2])], (0, 2, 4, 6)) + c01_reuse([(2, 2, [0, 1]), (1, 1, [0, 0, 1])], range(8)) + [dict(c, _reuse=1) for c in c01_joint((2, 4, 6)) + c01_tri((0, 4, 6))] + c01_recyc((0, 2, 3, 4, 6)) if not _undecidable(c)]},
      'selftest_config': AB(1, 1, [0, 0, 1], SEL=2), 'selftests': ['VS_SELFTEST_1']},
   ],
  }
